@@ -244,7 +244,9 @@ def update_dictionary(current, update):
     Expects current to be a dictionary, with no restriction on the types of objects
     stored within it, and no defaults values.
     """
-    result = current
+    # work on a copy: the current value may be an object the caller
+    # handed in (the state of an _add, a default shared by a divider)
+    result = copy.copy(current)
 
     for key, value in update.items():
         if key == "_add":
@@ -258,7 +260,9 @@ def update_dictionary(current, update):
             for k in value:
                 del result[k]
         elif key in result:
-            result[key].update(value)
+            entry = copy.copy(result[key])
+            entry.update(value)
+            result[key] = entry
         else:
             raise Exception(f"Invalid dict_value_updater key: {key}")
     return result
